@@ -18,10 +18,10 @@ func init() {
 		ID: "C11",
 		Rule: "plan = histories of ACL SETUSER (on/off, >pw, <pw, #hash, !hash, nopass, resetpass), DELUSER (including default), AUTH (1- and 2-argument), HELLO ... AUTH, ACL SAVE, ACL LOAD MERGE|REPLACE and restarts on the saved JSON or YAML file, on 2-4 connections with right and wrong passwords, disabled and unknown users; after every step each connection is probed (ACL WHOAMI and a data command); " +
 			"non-trivial = at least one successful and one failed authentication; distinct = hash of the (step kind, outcome) sequence",
-		Gen:  genC11,
-		Run:  runC11,
-		Real: []string{"acl.AuthenticateConnection / RegisterConnection", "ACL SETUSER/DELUSER/LOAD/SAVE/WHOAMI handlers", "user.UpdateUser/Normalise/Merge/Replace", "HELLO/AUTH handlers", "ACL config file load at start-up (JSON and YAML)"},
-		Stub: []string{"TCP sockets", "the config file lives on tmpfs; no crash is injected into ACL SAVE in this profile"},
+		Gen:         genC11,
+		Run:         runC11,
+		Real:        []string{"acl.AuthenticateConnection / RegisterConnection", "ACL SETUSER/DELUSER/LOAD/SAVE/WHOAMI handlers", "user.UpdateUser/Normalise/Merge/Replace", "HELLO/AUTH handlers", "ACL config file load at start-up (JSON and YAML)"},
+		Stub:        []string{"TCP sockets", "the config file lives on tmpfs; no crash is injected into ACL SAVE in this profile"},
 		Assumptions: []string{"every test user gets allCategories allCommands allKeys allChannels so that authentication is the only variable", "LOAD MERGE: passwords are united and the enabled/nopass flags come from the file; LOAD REPLACE: users present in the file take the file's state, others stay"},
 	})
 }
